@@ -86,6 +86,8 @@ def skeleton_urls():
     return out
 
 
+# userinfo / port shapes that are easy to lose: a password without user, an empty password, port 0, a port with leading zeros
+AUTH_PORT = ["http://:pw@a.com/", "http://u:@a.com/x", "https://:p%40w@a.com:0/?q", "http://a.com:0/", "http://a.com:00080/x", "http://a.com:080/", "HTTPS://A.com:0443/"]
 HOSTLESS = ["http://u@/a", "http://:8080/a", "http://u:p@:8080/a?x=1#f", "u@/a", "https://u%40:p%3A@/", "http://:80/a/../b", "http:///a", "http://", "//:81/x"]
 
 
@@ -114,6 +116,11 @@ def main():
                 for dp in ("https", "http"):
                     if check_url(col, url, quoted, sf, dp):
                         col.nontriv(("skel", url))
+    for url in AUTH_PORT:
+        for quoted in (False, True):
+            for sf in (False, True):
+                if check_url(col, url, quoted, sf):
+                    col.nontriv(("auth-port", url))
     # a URL may carry userinfo or a port and no host: still a URL string that parses
     for url in HOSTLESS:
         for quoted in (False, True):
